@@ -321,7 +321,15 @@ pub fn big_doc(kind: u8, size_sel: u8, seed: u16, level: u8) -> M {
         2 => M::Str(if seed % 2 == 0 { "x".repeat(n) } else { "é".repeat(n / 2 + 1) }),
         // deep nesting, alternating arrays and objects (kept well below any stack limit)
         3 => {
-            let d = [10usize, 16, 17, 31, 32, 33, 64, 100][size_sel as usize % 8];
+            // up to 100 at level 1 (as before); from level 2 also just past 128, where a guard against
+            // deep recursion would be placed. Kept below 256: the comparable key's u8 depth counter
+            // overflows there (known finding F20-u8-depth, reported by C20 and only there), and a
+            // couple of hundred levels are far from any stack limit
+            let d = if level >= 2 {
+                [10usize, 16, 17, 31, 32, 33, 64, 100, 129, 130, 200, 250][size_sel as usize % 12]
+            } else {
+                [10usize, 16, 17, 31, 32, 33, 64, 100][size_sel as usize % 8]
+            };
             let mut m = small_leaf(seed as usize, seed);
             // the nested child is sometimes followed by a sibling, sometimes preceded by one
             for i in 0..d {
